@@ -140,11 +140,21 @@ def ref_execute(case):
     return out
 
 
+def cascade_profile():
+    """Few nodes, many servers, no waiting room, self-loops: long unblocking cascades released by a single departure."""
+    w = {"capacity": 1.0, "self_loops": 1.0, "priorities": 0.2, "batching": 0.3, "zero_service": 0.2}
+    return S.Profile(list(w), weights=w, required=("capacity", "self_loops"), numeric="grid", max_nodes=2, max_classes=2, plans=("max_time",),
+                     horizon=(8.0, 20.0), budget=700, caps=(0, 0, 0, 1), load="heavy", max_c=6, stay=0.7, resumptions=(1, 1))
+
+
 _base_subchecks = subchecks
 
 
 def subchecks(tier):   # noqa: F811
     return _base_subchecks(tier) + [
+        system_subcheck("cascade", cascade_profile(), lambda spec: [Blocking(spec)], lambda a, spec, res: a.get("max_cascade", 0) >= 3,
+                        classes=lambda a, spec, res: ["cascade>=%d" % k for k in (3, 4, 5, 6) if a.get("max_cascade", 0) >= k], obs=True,
+                        n={"quick": 4800, "thorough": 30000}, rule="1-2 nodes, up to 6 servers, no waiting room, self-loops: long unblocking cascades; same monitor"),
         SubCheck("refdes", ref_execute, strategy=ref_case(), n={"quick": 4800, "thorough": 40000}, kind="differential", is_spec=False,
                  rule=("independent reference simulator (vf/refdes.py: fixed servers, FIFO/LIFO, non-pre-emptive priorities, finite capacities with "
                        "rejection and Type I blocking, scripted routes, id-keyed service times) predicts every service and rejection record of "
